@@ -173,9 +173,14 @@ def gen_db_seq(rng, n, thorough=False):
 
 
 def gen_db_stress(thorough=False):
-    ms = 20000 if thorough else 2500
-    return [{"id": 9000, "kind": "db_stress", "writers": 3, "readers": 3, "millis": ms, "block": 125, "tag": "c19-stress-125-registers"},
-            {"id": 9001, "kind": "db_stress", "writers": 2, "readers": 4, "millis": ms, "block": 2000, "tag": "c19-stress-2000-coils"}]
+    """every point type has its own read path in the server: all four are read while transactions rewrite the block"""
+    ms = 10000 if thorough else 1500
+    out = []
+    for pt, name, block, w, r in ((2, "holding-registers", 125, 3, 3), (0, "coils", 2000, 2, 4),
+                                  (3, "input-registers", 125, 3, 3), (1, "discrete-inputs", 2000, 2, 4)):
+        out.append({"id": 9000 + pt, "kind": "db_stress", "writers": w, "readers": r, "millis": ms, "block": block, "pt": pt,
+                    "tag": f"c19-stress-{block}-{name}"})
+    return out
 
 
 # ------------------------------------------------------------------ runner
